@@ -426,11 +426,11 @@ func c20Blank(c *Ctx) {
 		c.bad("blank-delegation", relName(ss)+"#refuse", ss.Pos(), "SetSource does not test whether the current inner source is a Watcher")
 	} else {
 		// from the ok==true successor: returns a non-nil error, no stores to Blank fields, no calls on the new source
-		var succ *ssa.BasicBlock
+		var succ, succFrom *ssa.BasicBlock
 		if okV != nil {
 			for _, r := range *boolCarrier(okV).Referrers() {
 				if iff, ok := r.(*ssa.If); ok {
-					succ = iff.Block().Succs[0]
+					succ, succFrom = iff.Block().Succs[0], iff.Block()
 				}
 			}
 		}
@@ -450,7 +450,8 @@ func c20Blank(c *Ctx) {
 				}
 				return false
 			}
-			if reachAvoidFromBlock(succ, isSide, isReturn) != nil {
+			// (branches decided by the values joined on the edge taken - the error a folded check helper hands back - are pruned)
+			if reachesPruned(succFrom, succ, isSide) {
 				okRef = false
 			}
 			// and it precedes every write/call in the function
@@ -501,11 +502,41 @@ func c20Blank(c *Ctx) {
 			if _, ok := loadOfTypeField(v, "sourcewrap.Blank", "wa"); ok {
 				return "wa"
 			}
+			if _, ok := loadOfTypeField(v, "sourcewrap.Blank", "inner"); ok {
+				return "inner"
+			}
 			return ""
 		}}
 		g := pb.pathCond(dn.Blocks[0], fwd.Block())
-		c.checkTable("blank-delegation", relName(dn)+"#forward", fwd.Pos(), g, []string{"innerIsWatcher", "isnil(wa)"}, nil, "!innerIsWatcher && wa != nil",
-			func(e env) bool { return !e.B["innerIsWatcher"] && !e.B["isnil(wa)"] })
+		fbD, fiD := map[string]bool{}, map[string]bool{}
+		atomsOf(g, fbD, fiD)
+		if fbD["isnil(inner)"] {
+			// an explicit `inner != nil` beside the assertion: a nil interface never satisfies it, so the rows with
+			// innerIsWatcher && inner == nil do not exist
+			unknown := len(fiD) > 0
+			for a := range fbD {
+				if a != "innerIsWatcher" && a != "isnil(wa)" && a != "isnil(inner)" {
+					unknown = true
+				}
+			}
+			rows, counter := forAll(g, nil, func(e env, fv bool) bool {
+				if e.B["innerIsWatcher"] && e.B["isnil(inner)"] {
+					return true
+				}
+				return fv == (!e.B["innerIsWatcher"] && !e.B["isnil(wa)"])
+			})
+			switch {
+			case unknown:
+				c.undecided("blank-delegation", relName(dn)+"#forward", fwd.Pos(), "guard %s contains atoms the rule cannot interpret (spec: !innerIsWatcher && wa != nil)", g)
+			case counter != "":
+				c.bad("blank-delegation", relName(dn)+"#forward", fwd.Pos(), "guard %s differs from spec !innerIsWatcher && wa != nil at %s", g, counter)
+			default:
+				c.okRows("blank-delegation", relName(dn)+"#forward", fwd.Pos(), rows, "guard %s == spec !innerIsWatcher && wa != nil on all feasible rows", g)
+			}
+		} else {
+			c.checkTable("blank-delegation", relName(dn)+"#forward", fwd.Pos(), g, []string{"innerIsWatcher", "isnil(wa)"}, nil, "!innerIsWatcher && wa != nil",
+				func(e env) bool { return !e.B["innerIsWatcher"] && !e.B["isnil(wa)"] })
+		}
 	}
 
 	// ---- blank-locking --------------------------------------------------------------------------
